@@ -31,6 +31,21 @@ theorem C25_later_same (search : Nat → Option Ans) (j j' fuel k : Nat) (hjj : 
     (h : solveLoop search (some j) fuel k = a) : solveLoop search (some j') fuel k = a :=
   stop_later_same search j j' fuel k hjj a ha h
 
+/-- the two-level loop (`solve_` over `search`, the flags polled before every round and in every iteration after
+    `propagate`): a request that becomes visible at any poll of any round gives unknown or the undisturbed answer -/
+theorem C25_two_level_unknown_or_same (iter : Nat → Nat → Option Ans) (s : Nat × Nat) (budget : Nat → Nat) (F k : Nat) :
+    solve2 iter (some s) budget F k = .unknown ∨ solve2 iter (some s) budget F k = solve2 iter none budget F k :=
+  solve2_unknown_or_same iter s budget F k
+
+/-- the theorem is not vacuous and not insensitive: a loop that, on seeing the request, goes on at level 0 and takes a
+    pending conflict for a level-0 conflict (the seeded change `C25-stop-midloop-cancel`) answers unsat where the
+    undisturbed loop answers sat -/
+example : innerBroken (fun _ i => if i = 5 then some .sat else none) (fun _ _ => true) (some (0, 2)) 0 10 0 = some .unsat ∧
+          inner (fun _ i => if i = 5 then some .sat else none) none 0 10 0 = some .sat := by decide
+
+example : solve2 (fun _ i => if i = 5 then some .sat else none) (some (0, 2)) (fun _ => 10) 3 0 = .unknown ∧
+          solve2 (fun _ i => if i = 5 then some .sat else none) (some (0, 7)) (fun _ => 10) 3 0 = .sat := by decide
+
 example : solveLoop (fun k => if k = 3 then some .unsat else none) (some 5) 10 0 = .unsat ∧
           solveLoop (fun k => if k = 3 then some .unsat else none) (some 2) 10 0 = .unknown := by decide
 
